@@ -333,8 +333,41 @@ RESERVED_SOURCES = [
 ]
 
 
+# the objects the engine itself puts into scope (loop helpers, the block drop, a macro's args / kwargs): templates can hand them to every
+# tag and filter like any other value
+DROPS = {
+    "forloop": "{% for i in (1..2) %}@{% endfor %}", "forloop.parentloop": "{% for o in (1..2) %}{% for i in (1..2) %}@{% endfor %}{% endfor %}", "tablerowloop": "{% tablerow i in (1..2) %}@{% endtablerow %}",
+    "block": "{% block b %}@{% endblock %}", "block.super": "{% extends 'base' %}{% block b %}@{% endblock %}", "kwargs": "{% macro m %}@{% endmacro %}{% call m a: 1, b: nosuch %}",
+    "args": "{% macro m %}@{% endmacro %}{% call m 1, nosuch, 'x' %}", "forloop.length": "{% for i in (1..2) %}@{% endfor %}",
+}
+DROP_USES = ["{% for b in D %}{{ b }}{% endfor %}", "{% tablerow b in D %}{{ b }}{% endtablerow %}", "{% if D == h %}y{% endif %}", "{% if h == D %}y{% endif %}", "{% if D contains 'a' %}y{% endif %}", "{% if h contains D %}y{% endif %}",
+             "{% if D < 1 %}y{% endif %}", "{% case D %}{% when h %}y{% when 1 %}z{% endcase %}", "{% case h %}{% when D %}y{% endcase %}", "{{ D }}", "{{ D.size }}{{ D.first }}{{ D.last }}{{ D[0] }}{{ D['a'] }}", "{% assign v = D %}{{ v | json }}",
+             "{% cycle D, 1 %}", "{% include 'p' with D %}", "{% render 'p', v: D %}", "{% for b in (1..D) %}x{% endfor %}", "{{ h[D] }}{{ xs[D] }}", "{% with v: D %}{{ v }}{% endwith %}", "{{ 'x' if D else 'y' }}", "{% echo D | default: 'd' %}"]
+DATE_STRINGS = ["111111111111111111111111111111hours", "99999999999999999999999999999m", "1" * 40 + "h", "12:00:00:00", "2020-01-01T99", "0000-00-00", "1e400", "31st February", "-1", "+1 day", "10:00 pm pm",
+                "2020-13-45", "99999999999", "1" * 400, "Jan " + "1" * 30, "12h30m" + "9" * 30 + "s", "\u0661\u0662", "now ", " today", "NOW", "2020-01-01 25:61:61", "1.5", "١٢٣", "２０２０"]
+
+
 def cases(ctx: core.Ctx):
     k = 0
+    fnames0, _ = filter_names()
+    drop_data = {"h": {"a": 1}, "xs": [1, 2, 3]}
+    for dname, wrapper in DROPS.items():
+        uses = list(DROP_USES) + ["{{ D | " + f + " }}" for f in fnames0] + ["{{ h | " + f + ": D }}" for f in fnames0] + ["{{ 'a b' | " + f + ": 1, D }}" for f in fnames0[::3]]
+        for u in uses:
+            k += 1
+            if k % ctx.nshards != ctx.shard:
+                continue
+            yield {"kind": "engine-drop", "source": wrapper.replace("@", u.replace("D", dname)), "data": V.enc(drop_data), "mode": MODES[k % 3], "extra": True, "flags": True, "async": k % 5 == 0}
+    for ds in DATE_STRINGS:
+        for fmt in ("'%Y'", "'%s'", "f", "'%'"):
+            k += 1
+            if k % ctx.nshards == ctx.shard:
+                yield {"kind": "date-string", "source": "{{ d | date: " + fmt + " }}{{ '" + ds.replace("'", "") + "' | date: '%H' }}", "data": V.enc({"d": ds, "f": "%Y-%m-%d"}), "mode": "strict", "extra": True}
+    for v in RESERVED_VALUES[:24]:
+        for src in ("{% extends 'base' %}{% block b %}{% render x %}{% endblock %}", "{% render x %}", "{% extends 'base' %}{% block b %}{% include x %}{% endblock %}", "{% extends x %}", "{% block b %}{% render x for xs %}{% endblock %}"):
+            k += 1
+            if k % ctx.nshards == ctx.shard:
+                yield {"kind": "template-name-from-data", "source": src, "data": V.enc({"x": v, "xs": [1]}), "mode": MODES[k % 3], "extra": True, "async": k % 4 == 0}
     for name in RESERVED_NAMES:
         for v in RESERVED_VALUES:
             for src in RESERVED_SOURCES:
